@@ -91,11 +91,12 @@ def plan(tier, seed, avoid):
 
 
 def floors(tier):
-    return {"evaluations": 600, "distinct_nontrivial": 300, "observed.relaxations_applied": 2000,
-            "observed.pairs.maze": 500, "observed.pairs.c": 60, "observed.executed_pairs": 500,
-            "observed.shortened_executed": 300, "observed.not_shrunk_out_of_range": 200,
-            "observed.cross_section_jumps": 200, "observed.llvm_lines_compared": 20000,
-            "observed.near_boundary_jumps": 200}
+    return {"evaluations": 50000, "distinct_nontrivial": 300, "observed.relaxations_applied": 5000,
+            "observed.pairs.maze": 500, "observed.pairs.c": 60, "observed.executed_pairs": 1500,
+            "observed.shortened_executed": 300, "observed.not_shrunk_out_of_range": 3000,
+            "observed.cross_section_jumps": 1000, "observed.llvm_lines_compared": 100000,
+            "observed.near_boundary_jumps": 200, "observed.two_code_images": 100,
+            "observed.shared_memory_pairs": 30, "observed.following_section_moved": 30}
 
 
 # ---------------------------------------------------------------------------
@@ -419,7 +420,8 @@ def gen_maze(r, avoid, idx):
             elif cur is not None:
                 sizes[cur] = sizes.get(cur, 0) + ops_size([op]) + (3 if op[0] == "align" else 0)
     lay = gen_layout(r, two_code and "code2" in sizes and "code" in sizes, avoid, sizes=sizes, first=first,
-                     bridge=(units[bridge[0]][0], units[bridge[1]][0]) if bridge else None, objops=objops)
+                     bridge=(units[bridge[0]][0], units[bridge[1]][0]) if bridge else None, objops=objops,
+                     allow_shared=T0 not in sub_rd)
     inputs = [r.randrange(0, 1 << 10) for _ in range(3)] + [0]
     return {"kind": "maze", "index": idx, "objects": objops, "globals": globals_, "layout": lay, "entry": B(0),
             "inputs": inputs, "aimed_at_boundary": boundary, "features": {"two_code": two_code, "nobj": nobj,
@@ -473,7 +475,8 @@ def risky_cross_image(sm, addr):
     return False
 
 
-def gen_layout(r, two_code, avoid, data_name="data", sizes=None, first="code", bridge=None, objops=None):
+def gen_layout(r, two_code, avoid, data_name="data", sizes=None, first="code", bridge=None, objops=None,
+               allow_shared=True):
     """memories as [name, location, size, [section names]]"""
     sizes = sizes or {}
     base = r.choice([0x1000, 0x4000, 0x10000, 0x20000, 0x7000]) + r.choice([0, 0, 0x100, 0x40])
@@ -483,7 +486,7 @@ def gen_layout(r, two_code, avoid, data_name="data", sizes=None, first="code", b
     while big < 2 * sum(sizes.values()) + 0x1000:
         big *= 2
     shared = None
-    if F_ALIGN in avoid and objops and r.random() < 0.45:
+    if F_ALIGN in avoid and objops and r.random() < 0.45 and allow_shared:
         # sections sharing a memory are only generated when the number of jumps that will be shortened in front
         # of every following section is even (prediction from the distances before relaxation; the judge discards
         # the case if the prediction was wrong)
